@@ -639,24 +639,29 @@ theorem C19_rejects_from_aggregator_extents (a : SubsArgsI) (hw : ∀ row ∈ a.
 theorem C19_accepts_from_aggregator_extents (a : SubsArgsI) (hw : ∀ row ∈ a.subs, row.length = a.width)
     (h : Pre_subsI a) : validate_fromAggregatorI a = .ok () := (validate_fromAggregatorI_ok_iff a hw).2 h
 
-/-- the plain `sptensor(subs, vals, shape)` constructor never tests the sign of an extent; as
-long as there is at least one entry its range test rejects a non-positive extent all the same. -/
-theorem C19_rejects_sptensor_extents (a : SubsArgsI) (hne : a.subs ≠ []) (h : ¬ Pre_subsI a) :
+/-- the plain `sptensor(subs, vals, shape)` constructor (after commit eaa8284): a zero or negative
+extent is rejected with and without entries, like everything `Pre_subs` excludes. -/
+theorem C19_rejects_sptensor_extents (a : SubsArgsI) (h : ¬ Pre_subsI a) :
     validate_sptensorI a = .error .reject :=
-  rejects_of_guard (validate_sptensorI_ok_iff a hne) h
+  rejects_of_guard (validate_sptensorI_ok_iff a) h
 
 theorem C19_accepts_sptensor_extents (a : SubsArgsI) (h : Pre_subsI a) : validate_sptensorI a = .ok () :=
-  (validate_sptensor_ok_iff a.toNat).2 h.2
+  (validate_sptensorI_ok_iff a).2 h
 
-/-- ... and without entries it answers: `sptensor(empty, empty, (2, -3))` is a tensor with a
-negative extent (reported; the harness lists it as the known finding
-`F19-sptensor-empty-nonpositive-extent`). -/
-theorem C19_sptensor_empty_nonpositive_extent_counterexample :
-    validate_sptensorI ⟨[2, -3], 2, [], 0⟩ = .ok () ∧ ¬ Pre_subsI ⟨[2, -3], 2, [], 0⟩ ∧
-    validate_sptensorI ⟨[2, 0], 2, [], 0⟩ = .ok () ∧ ¬ Pre_subsI ⟨[2, 0], 2, [], 0⟩ ∧
-    validate_fromAggregatorI ⟨[2, -3], 2, [], 0⟩ = .error .reject :=
+/-- before eaa8284 the constructor never tested the sign of an extent: with at least one entry its
+range test rejected a non-positive extent all the same, without entries it answered
+(`sptensor(empty, empty, (2, -3))` was a tensor with a negative extent; finding
+`F19-sptensor-empty-nonpositive-extent`, fixed).  About an explicit copy of the old guard. -/
+theorem C19_sptensor_extent_pinned_counterexample :
+    Pinned.sptensorI ⟨[2, -3], 2, [], 0⟩ = .ok () ∧ ¬ Pre_subsI ⟨[2, -3], 2, [], 0⟩ ∧
+    Pinned.sptensorI ⟨[2, 0], 2, [], 0⟩ = .ok () ∧ ¬ Pre_subsI ⟨[2, 0], 2, [], 0⟩ ∧
+    validate_sptensorI ⟨[2, -3], 2, [], 0⟩ = .error .reject ∧ validate_sptensorI ⟨[2, 0], 2, [], 0⟩ = .error .reject ∧
+    validate_fromAggregatorI ⟨[2, -3], 2, [], 0⟩ = .error .reject ∧
+    (∀ a : SubsArgsI, a.subs ≠ [] → ¬ Pre_subsI a → Pinned.sptensorI a = .error .reject) :=
   ⟨(validate_sptensor_ok_iff _).2 (by decide), by decide, (validate_sptensor_ok_iff _).2 (by decide), by decide,
-    C19_rejects_from_aggregator_extents _ (by simp) (by decide)⟩
+    C19_rejects_sptensor_extents _ (by decide), C19_rejects_sptensor_extents _ (by decide),
+    C19_rejects_from_aggregator_extents _ (by simp) (by decide),
+    fun a hne h => rejects_of_guard (pinned_sptensorI_ok_iff a hne) h⟩
 
 example : Pre_subsI ⟨[2, 3], 2, [[1, 2], [0, 0]], 2⟩ ∧ ¬ Pre_subsI ⟨[2, 3], 2, [[2, 0], [0, 0]], 2⟩ ∧
     ¬ Pre_subsI ⟨[2, 0], 2, [], 0⟩ ∧ ¬ Pre_subsI ⟨[2, -3], 2, [], 0⟩ ∧ Pre_subsI ⟨[2, 3], 2, [], 0⟩ := by decide
